@@ -145,7 +145,7 @@ func (t treeSpec) write(root string, base time.Time) {
 
 func c18(c *Ctx) {
 	c.Rep.TieObs = []string{"O-gen: the directory tree after each run of the real `goht generate` binary (names, contents, modification times)"}
-	c.Rep.Rule = "random directory trees (nested dirs, vendor / node_modules / dot / underscore / --skip-dirs directories at several depths, orphaned outputs, templates that do not compile, unrelated files, up-to-date and stale outputs, also by less than a second within one wall-clock second) x flag sets (--force, --keep, --skip-dirs, --max-workers 1 / 2 / 3 / 8, relative / absolute --path) x histories of two or three runs with edits, touches and deletions in between; plus one tree with hundreds of templates; oracle: the tree after each run against the specification computed with the real compiler + gofmt; distinct = distinct (tree, flags, history); non-trivial = the run had at least one stale template"
+	c.Rep.Rule = "random directory trees (nested dirs, vendor / node_modules / dot / underscore / --skip-dirs directories at several depths, orphaned outputs, templates that do not compile, unrelated files, up-to-date and stale outputs, also by less than a second within one wall-clock second) x flag sets (--force, --keep, --skip-dirs, --max-workers 1 / 2 / 3 / 8, --path spelled eight ways: ., ./, absolute, with a trailing separator, with /., with a doubled separator, through .., relative from the parent) x histories of two or three runs with edits, touches and deletions in between; plus one tree with hundreds of templates; oracle: the tree after each run against the specification computed with the real compiler + gofmt; distinct = distinct (tree, flags, history); non-trivial = the run had at least one stale template"
 	goht := filepath.Join(c.Build, "goht")
 	if !fileExists(goht) {
 		c.mismatch("setup", "", "goht binary missing", "", true)
@@ -175,7 +175,8 @@ func c18(c *Ctx) {
 			skip = []string{"skipme"}
 		}
 		workers := []int{1, 2, 3, 8}[c.R.Intn(4)]
-		rel := c.R.Intn(2) == 0
+		spell := c.R.Intn(8)
+		rel := spell == 0 || spell == 6 || spell == 7
 		runs := 2 + c.R.Intn(2)
 		cur := snapshot(root)
 		for run := 0; run < runs; run++ {
@@ -190,11 +191,28 @@ func c18(c *Ctx) {
 				args = append(args, "--skip-dirs", strings.Join(append([]string{"vendor", "node_modules"}, skip...), ","))
 			}
 			cmd := exec.Command(goht, args...)
-			if rel {
+			// the same directory, spelled the ways a shell and its completion spell it
+			parent, baseName := filepath.Dir(root), filepath.Base(root)
+			switch spell {
+			case 0:
 				cmd.Dir = root
 				cmd.Args = append(cmd.Args, "--path", ".")
-			} else {
+			case 1:
 				cmd.Args = append(cmd.Args, "--path", root)
+			case 2:
+				cmd.Args = append(cmd.Args, "--path", root+"/")
+			case 3:
+				cmd.Args = append(cmd.Args, "--path", root+"/.")
+			case 4:
+				cmd.Args = append(cmd.Args, "--path", parent+"//"+baseName)
+			case 5:
+				cmd.Args = append(cmd.Args, "--path", root+"/../"+baseName)
+			case 6:
+				cmd.Dir = parent
+				cmd.Args = append(cmd.Args, "--path", "./"+baseName+"/")
+			case 7:
+				cmd.Dir = root
+				cmd.Args = append(cmd.Args, "--path", "./")
 			}
 			done := make(chan error, 1)
 			var out bytes.Buffer
@@ -210,7 +228,7 @@ func c18(c *Ctx) {
 			after := snapshot(root)
 			c.Rep.OracleCases++
 			tieReqs = append(tieReqs, genRequest(cur, after, force && run == 0, keep, skip)...)
-			flags := fmt.Sprintf("force=%v keep=%v skip=%v workers=%d rel=%v run=%d", force && run == 0, keep, skip, workers, rel, run)
+			flags := fmt.Sprintf("force=%v keep=%v skip=%v workers=%d path-spelling=%d rel=%v run=%d", force && run == 0, keep, skip, workers, spell, rel, run)
 			bad := func(kind, what string) {
 				c.fail("C18/"+kind, what+" ["+flags+"]", map[string]any{"before": pathsOf(cur), "after": pathsOf(after), "flags": flags, "output": clip(out.String(), 600)})
 			}
